@@ -9,14 +9,16 @@ class HistCheck(Check):
     PARTS = ("ask", "tell", "opt")
     N_GEN = 4
     SHARD = 40
-    QUICK_N = 60
+    QUICK_N = 96
     THOROUGH_N = 600
     CASE_TIMEOUT = 120
     ORACLES = ()
 
     def gen(self, n):
-        for _ in range(n):
-            yield hist.gen_hist_case(self.rng, algs=self.ALGS, n_gen=self.N_GEN)
+        for i in range(n):
+            # every fourth case is one of the multi-feature scenarios, in turn
+            c = hist.gen_scenario_case(self.rng, i // 4, self.ALGS, self.N_GEN) if i % 4 == 2 else None
+            yield c if c is not None else hist.gen_hist_case(self.rng, algs=self.ALGS, n_gen=self.N_GEN)
 
     def run(self, case):
         return hist.run_history(case)
@@ -38,6 +40,7 @@ class HistCheck(Check):
         out = [case["alg"], case["sel"], case["cx"], case["repair"], "ieq=%d" % case["n_ieq"]]
         if case["alg"] in ("NSDE", "GDE3"): out += [case["surv"], case["cf"]]
         if case.get("prime"): out.append("primed-by-other-problem")
+        if case.get("scenario"): out.append("scenario-" + case["scenario"])
         feas = [obs["data"][str(i)]["feas"] for i in obs["gens"][-1]["post"]]
         out.append("final-all-feasible" if all(feas) else "final-none-feasible" if not any(feas) else "final-mixed")
         return out
